@@ -206,11 +206,15 @@ class Oracle:
                             for v in vs:
                                 s += v
                             series[k] = ('eq', s)
-                        else:   # mostrecent: a value whose set-time is maximal among the sets; never set -> absent
+                        else:   # mostrecent: a value whose set-time is maximal among the sets
                             sets = [(v, ts) for v, ts in vts if ts > 0]
                             if sets:
                                 tmax = max(ts for _, ts in sets)
                                 series[k] = ('oneof', [v for v, ts in sets if ts == tmax])
+                            else:
+                                # never set anywhere: the property text does not say whether such a series is listed
+                                # (the library omits it); if it is, it can only show what the processes hold
+                                series[k] = ('opt', [v for v, _ in vts])
             out[name] = (md['help'], kind, series, md)
         return out
 
@@ -219,7 +223,7 @@ def spec_ok(spec, r):
     how, arg = spec
     if how == 'eq':
         return feq(arg, r)
-    if how == 'oneof':
+    if how in ('oneof', 'opt'):
         return any(feq(v, r) for v in arg)
     if not any(feq(v, r) for v in arg):
         return False
@@ -241,7 +245,8 @@ def check_oracle(real, exp):
     for n in sorted(set(real) - set(exp)):
         probs.append(('C08:extra-series', 'family %s collected but no process holds it: %r' % (n, sorted(real[n][2])[:4])))
     for n in sorted(set(exp) - set(real)):
-        probs.append(('C08:missing-series', 'family %s held by some process is not collected' % n))
+        if any(sp[0] != 'opt' for sp in exp[n][2].values()):
+            probs.append(('C08:missing-series', 'family %s held by some process is not collected' % n))
     for n in sorted(set(real) & set(exp)):
         doc, typ, rs = real[n]
         edoc, etyp, es, md = exp[n]
@@ -253,6 +258,8 @@ def check_oracle(real, exp):
             probs.append(('C08:extra-series', 'family %s (%s): series %s%r=%r not held by any %sprocess' % (
                 n, prefix_of(md), k[0], dict(k[1]), rs[k], 'live ' if md.get('mode', '').startswith(LIVE) else '')))
         for k in sorted(set(es) - set(rs)):
+            if es[k][0] == 'opt':
+                continue
             probs.append(('C08:missing-series', 'family %s (%s): series %s%r (%s %r) is not collected' % (
                 n, prefix_of(md), k[0], dict(k[1]), es[k][0], es[k][1])))
         for k in sorted(set(es) & set(rs)):
